@@ -36,8 +36,14 @@ def lanes(tier):
 
 
 def gen_params(rng):
-    mode = rng.choice(["two_trios", "trio_plus", "singles", "trio"])
-    if mode == "two_trios":
+    mode = rng.choice(["two_trios", "trio_plus", "singles", "trio", "siblings"])
+    if mode == "siblings":
+        # one family with two or three children; the PED lists the children in an order that is not the alphabetical one, and
+        # each child has its own crossovers (the recombination list must name the child whose transmission changes)
+        kids = rng.sample(["zoe", "abe", "kim"], rng.choice([2, 2, 3]))
+        samples = ["dad", "mom"] + kids
+        ped = [("dad", "mom", k) for k in kids]
+    elif mode == "two_trios":
         samples = ["dadA", "momA", "kidA", "dadB", "momB", "kidB"]
         ped = [("dadA", "momA", "kidA"), ("dadB", "momB", "kidB")]
     elif mode == "trio_plus":
@@ -57,6 +63,7 @@ def gen_params(rng):
         "gt_noise": (rng.choice([0.0, 0.1, 0.2]), 0.0),
         "chrom_len": 2500,
         "n_var": rng.randint(8, 20) if not paired else rng.randint(14, 30),
+        "pos1_prob": 0.15,
         "kinds": ["snv"],
         "samples": samples,
         "pedigree": ped,
@@ -90,6 +97,12 @@ def gen_params(rng):
             opts["recombrate"] = rng.choice([1.26, 50.0, 50.0])
     if ped and rng.random() < 0.2:
         opts["recombrate"] = rng.choice([0.01, 1.26, 50.0])
+    if mode == "siblings":
+        p["recomb_prob"] = rng.choice([0.1, 0.2, 0.4])
+        p["depth"] = rng.choice([3, 6])
+        opts["recombrate"] = rng.choice([1.26, 50.0, 50.0])
+        if "recomb" not in opts["reports"] and rng.random() < 0.8:
+            opts["reports"].append("recomb")
     return p, opts
 
 
